@@ -29,7 +29,9 @@ ReqMethods == {"initialize", "shutdown", "textDocument/hover", "textDocument/com
                "textDocument/codeAction", "workspace/unknownMethod",
                "$/unknownRequest"}      \* a request (it has an id) in the protocol-reserved namespace: answered like any other
 PosKinds == {"inrange", "pastEnd", "negative"}
-ParamKinds == {"ok", "wrongShape", "missing"}
+\* wrongTypeLong: params of the right shape whose values have the wrong JSON type (a fractional line, a string where a number
+\* belongs), several hundred bytes long (a long document URI) - what an error reply quotes or truncates must still be a message
+ParamKinds == {"ok", "wrongShape", "missing", "wrongTypeLong"}
 
 VARIABLES docs, diag, phase, nextId, out, hist,
           pub       \* per document: the last validation result published (survives close; it is not part of what a
